@@ -137,11 +137,33 @@ def check(run):
             o.missing("impl %s for LtHash" % trait)
             continue
         b = bs[0]
-        cs = set(c.name.rsplit("::", 1)[-1] for c in b.calls())
+        cs = set(c.name.rsplit("::", 1)[-1] for fb in prog.family(b.defpath) for c in fb.calls())
         o.check(op in cs and inv not in cs and not any(x in cs for x in ("add", "sub", "saturating_add", "saturating_sub", "checked_add", "checked_sub")), "LtHash::%s|wrapping" % trait, "%s uses %s on every lane" % (trait, op), b.span, {"calls": sorted(cs)})
         z = [c for c in b.calls() if c.name.endswith("Iterator::zip")]
         ok = len(z) == 1 and K.mentions_field(b.operand_term(z[0].args[0]), "lanes", "LtHash") and K.mentions_field(b.operand_term(z[0].args[1]), "lanes", "LtHash")
-        o.check(ok, "LtHash::%s|all-lanes" % trait, "iterates self.lanes zipped with rhs.lanes (no take/skip/step)", b.span)
+        if not ok and not z:
+            # index form: `for i in 0..NUM_LANES { self.lanes[i] = self.lanes[i].<op>(rhs.lanes[i]) }` - the range covers the whole array and one
+            # index is used on both sides
+            nl = prog.const_int(CM + "NUM_LANES")
+            full = False
+            for (bb, rv, sp, dst) in b.aggregates():
+                if rv.get("ak") == "adt" and rv["adt"].endswith("ops::range::Range"):
+                    ts = [b.operand_term(x) for x in rv["ops"]]
+                    end = K.const_eval(ts[1])
+                    if end is None and isinstance(K.peel(ts[1]), tuple) and K.peel(ts[1])[0] == "call" and K.peel(ts[1])[1].rsplit("::", 1)[-1] == "len" and K.mentions_field(ts[1], "lanes", "LtHash"):
+                        end = nl
+                    full = K.const_eval(ts[0]) == 0 and nl is not None and end == nl
+            same_index = False
+            for (bb, i, dst, rv, sp) in b.assignments():
+                if not dst["p"]:
+                    continue
+                dt = b.place_term(dst)
+                if isinstance(dt, tuple) and dt and dt[0] == "index" and K.mentions_field(dt[1], "lanes", "LtHash"):
+                    vt = b.rvalue_term(rv)
+                    ixs = [x[2] for x in mir.walk(vt) if isinstance(x, tuple) and x and x[0] == "index" and K.mentions_field(x[1], "lanes", "LtHash")]
+                    same_index = len(ixs) == 2 and all(x == dt[2] for x in ixs) and K.mentions(dt[2], lambda y: isinstance(y, tuple) and y and y[0] == "call" and y[1].endswith("::next"))
+            ok = full and same_index
+        o.check(ok, "LtHash::%s|all-lanes" % trait, "iterates self.lanes zipped with rhs.lanes (no take/skip/step), or indexes both with one index over 0..NUM_LANES", b.span)
         o.check(not any(x in cs for x in ("take", "skip", "step_by", "chunks", "split_at")), "LtHash::%s|no-partial" % trait, "no partial traversal of the lanes", b.span)
         ov = [bl for bl in b.blocks if bl["term"]["k"] == "assert" and bl["term"]["ak"].startswith("Overflow")]
         o.check(not ov, "LtHash::%s|no-checked-arith" % trait, "no overflow-checked arithmetic in the lane update", b.span)
@@ -155,6 +177,10 @@ def check(run):
         o.check(ok, "LtHash::%s|hashes-own-args" % fn, "%s hashes (key, value) of its own arguments" % fn, b.span)
         ops = [c for c in b.calls() if op + "<" in c.callee_args or c.name.endswith(op + ">::" + ("add_assign" if op == "AddAssign" else "sub_assign")) or c.name.endswith("::" + ("add_assign" if op == "AddAssign" else "sub_assign"))]
         o.check(len(ops) == 1, "LtHash::%s|op" % fn, "%s applies %s exactly once" % (fn, op), b.span)
+        for c in ops:
+            ex = D.extra_guards(prog, b, c.bb, [])
+            o.check(not ex and b.always_followed_by(0, [c.bb]), "LtHash::%s|unconditional" % fn, "%s folds the entry in / out on every path, whatever the commitment currently is (the identity included: "
+                    "a per-block delta starts from it)" % fn, c.span, {"extra": G.atoms_show(ex)})
     b = prog.body(LT + "::observe")
     if b is None:
         o.missing("LtHash::observe")
